@@ -55,8 +55,42 @@ Definition read_enum (o : enum_out) : outcome renum :=
                (map (fun v => match v with (n, i, d) => (trim_prefix tp n, i, clean_desc d) end) (eo_values o)))
   end.
 
-(* the enum schema a declaration denotes *)
+(* the enum schema a declaration denotes — from the declaration alone (README,
+   "Enums"): value 0 is UNSPECIFIED; it may be written explicitly as the first
+   option, named UNSPECIFIED (with or without the prefix), to give it a
+   description; the other options are numbered 1, 2, ... in declaration order;
+   reflected option names are without the prefix. Descriptions as declared. *)
+Definition names_unspecified (p n : str) : bool :=
+  str_eqb n unspecified || str_eqb n (p ++ unspecified)%list.
+
+Fixpoint number_options (p : str) (i : Z) (os : list (str * str)) : list (str * Z * str) :=
+  match os with
+  | [] => []
+  | (n, d) :: r => (trim_prefix p n, i, d) :: number_options p (i + 1)%Z r
+  end.
+
 Definition norm_enum (e : enum_decl) : renum :=
   let p := ed_prefix e in
-  let sh := fun v => match v with (n, i, d) => (trim_prefix p n, i, clean_desc d) end in
-  RE (clean_desc (ed_desc e)) p (map sh (eo_values (write_enum e))).
+  RE (ed_desc e) p
+     (match ed_options e with
+      | (n, d) :: r =>
+          if names_unspecified p n
+          then (unspecified, 0%Z, d) :: number_options p 1%Z r
+          else (unspecified, 0%Z, []) :: number_options p 1%Z (ed_options e)
+      | [] => [(unspecified, 0%Z, [])]
+      end).
+
+(* the fragment: every description survives commentDescription unchanged, and an
+   explicit first option ending in UNSPECIFIED is spelled UNSPECIFIED or
+   <prefix>UNSPECIFIED (and the prefix is not itself a prefix of "UNSPECIFIED") *)
+Definition unspec_ok (e : enum_decl) : bool :=
+  match ed_options e with
+  | (n, _) :: _ =>
+      if has_suffix unspecified n
+      then str_eqb n (ed_prefix e ++ unspecified)%list
+           || (str_eqb n unspecified && negb (has_prefix (ed_prefix e) unspecified))
+      else true
+  | [] => true
+  end.
+Definition enum_rt (e : enum_decl) : bool :=
+  unspec_ok e && desc_plain (ed_desc e) && forallb (fun o => desc_plain (snd o)) (ed_options e).
